@@ -76,6 +76,19 @@ func isDeleteOn(ins ssa.Instruction, f *types.Var) (*ssa.Call, bool) {
 	return call, chk.LoadsField(call.Call.Args[0], f)
 }
 
+// isClearOn: ins is clear(m) for the map field f (removes every entry).
+func isClearOn(ins ssa.Instruction, f *types.Var) (*ssa.Call, bool) {
+	call, ok := ins.(*ssa.Call)
+	if !ok {
+		return nil, false
+	}
+	b, isB := call.Call.Value.(*ssa.Builtin)
+	if !isB || b.Name() != "clear" || len(call.Call.Args) != 1 {
+		return nil, false
+	}
+	return call, chk.LoadsField(call.Call.Args[0], f)
+}
+
 // entriesAvoiding walks callers of f upward and returns the entry functions
 // (exported / goroutine roots / unknown callers) from which f is reachable
 // without passing through one of the `through` functions.
@@ -217,6 +230,9 @@ func ruleUsedTable(c *chk.Ctx, d *dispatchModel) {
 	for _, f := range pkgFuncs(c, c.M.Pkg) {
 		ir.Instrs(f, func(ins ssa.Instruction) {
 			call, ok := isDeleteOn(ins, used)
+			if !ok {
+				call, ok = isClearOn(ins, used)
+			}
 			if !ok {
 				return
 			}
